@@ -5,6 +5,7 @@ import re
 # translators run before every lake build: (tool directory under tools/, generated file, arguments)
 GENERATORS = [
     ("rngcooked", "RngCooked.lean", []),
+    ("pkgstate", "PackageState.lean", ["{repo}"]),
 ]
 
 
@@ -264,6 +265,123 @@ CLASSIFIERS = {}
 RUN_ASSUME = ["generated programs are Productive (every node starts with a line, so no jump cycle without a yielding statement)",
               "errors are compared as a class, never by message", "choices are kept in range while a choice is expected"]
 
+def special_concurrent(prop, sc, tier, seed, harness, repo):
+    """C18: the same cases run one after the other in one goroutine, and each in its own goroutine under the race
+    detector (creation/parsing and stepping interleave), repeated with several degrees of parallelism."""
+    import subprocess, os
+    sys_path = os.path.dirname(os.path.dirname(os.path.abspath(__file__)))
+    import importlib
+    chk = importlib.import_module("__main__")
+    race, err = chk.build_harness(race=True)
+    if race is None:
+        return {"stats": {"cases": 0}, "failures": [{"case": "", "kind": "the race-detector build of the harness failed: " + err[:500], "impl": [], "model": [], "concrete": False}]}
+    n = sc["thorough"] if tier == "thorough" else sc["quick"]
+    r = subprocess.run([harness, "gen", "run", sc["profile"], str(seed), str(n)], capture_output=True, text=True)
+    lines = [l for l in r.stdout.split("\n") if l]
+    text = "\n".join(lines) + "\n"
+    def obs_of(out):
+        obs = {}
+        for line in out.split("\n"):
+            p = line.split("\t")
+            if len(p) == 3:
+                obs.setdefault(p[0], []).append(p[2])
+        return obs
+    seq = obs_of(subprocess.run([harness, "run"], input=text, capture_output=True, text=True, timeout=900).stdout)
+    failures = []
+    runs = 0
+    for workers in ([4, 16] if tier != "thorough" else [1, 2, 4, 8, 16, 32]):
+        for procs in ([8] if tier != "thorough" else [1, 4, 16]):
+            env = dict(os.environ, GOMAXPROCS=str(procs), GORACE="halt_on_error=0")
+            c = subprocess.run([race, "conc", str(workers)], input=text, capture_output=True, text=True, timeout=1800, env=env)
+            runs += 1
+            if "DATA RACE" in c.stderr:
+                failures.append({"case": lines[0], "kind": "the race detector reported a data race while distinct runners were created and driven concurrently", "impl": c.stderr.split("\n")[:40], "model": [], "concrete": True})
+                break
+            par = obs_of(c.stdout)
+            for line in lines:
+                cid = re.match(r"\(case \S+ (\S+)", line).group(1)
+                if seq.get(cid) != par.get(cid):
+                    failures.append({"case": line, "kind": f"the trace of a runner driven concurrently with others ({workers} goroutines, GOMAXPROCS={procs}) differs from its solo trace", "impl": par.get(cid, []), "model": seq.get(cid, []), "concrete": True})
+                    break
+        if failures:
+            break
+    return {"stats": {"cases": len(lines) * runs, "agree": len(lines) * runs - len(failures), "distinct_nontrivial": len({l.split(' ', 3)[-1] for l in lines})},
+            "failures": failures[:3], "samples": []}
+
+
+def special_load(prop, sc, tier, seed, harness, repo):
+    """C05: two passes. The implementation side reports, per case, the oracle values of an independent lexer+parser and the
+    outcome class of NewDialogueRunner; the oracle values are then handed to the Lean model of the load decision."""
+    import subprocess, os
+    n = sc["thorough"] if tier == "thorough" else sc["quick"]
+    r = subprocess.run([harness, "gen", "load", sc["profile"], str(seed), str(n)], capture_output=True, text=True)
+    lines = [l for l in r.stdout.split("\n") if l]
+    env = dict(os.environ, GOMAXPROCS="8", GOMEMLIMIT="4GiB")
+    p = subprocess.run([harness, "run"], input="\n".join(lines) + "\n", capture_output=True, text=True, timeout=3000, env=env)
+    impl = {}
+    for line in p.stdout.split("\n"):
+        q = line.split("\t")
+        if len(q) == 3:
+            impl.setdefault(q[0], []).append(q[2])
+    failures, model_lines, stats = [], [], {"cases": len(lines), "agree": 0, "distinct_nontrivial": 0}
+    kinds = {}
+    crashed = p.returncode != 0
+    for line in lines:
+        cid = re.match(r"\(case \S+ (\S+)", line).group(1)
+        io = impl.get(cid)
+        if not io:
+            if crashed:
+                failures.append({"case": line, "kind": "the implementation process died while loading this input (or an earlier one): " + p.stderr[-300:], "impl": [], "model": [], "concrete": True})
+                crashed = False
+            continue
+        m = re.match(r"ORACLE (\S*) (\S*)", io[0])
+        ses, nodes = m.group(1).split(","), m.group(2).split(",")
+        if m.group(1) == "":
+            ses, nodes = [], []
+        if "panic" in ses:
+            failures.append({"case": line, "kind": "the lexer/parser panicked on this input (independent parse)", "impl": io, "model": [], "concrete": True})
+            continue
+        seedm = re.search(r"\(seed \(s[ 0-9]*\)\)", line).group(0)
+        model_lines.append((cid, line, f"(case load {cid} (oracle (se {' '.join(ses)}) (nodes {' '.join(nodes)})) {seedm})"))
+        # oracle contract of the grammar: a clean parse has at least one node
+        for a, b in zip(ses, nodes):
+            if a == "0" and b == "0":
+                failures.append({"case": line, "kind": "oracle contract broken: a reader parsed without syntax error but yields no node", "impl": io, "model": [], "concrete": True})
+    exe = os.path.join(os.path.dirname(os.path.dirname(os.path.abspath(__file__))), "lean", ".lake", "build", "bin", "ysgo-model")
+    mo = subprocess.run([exe], input="\n".join(x[2] for x in model_lines) + "\n", capture_output=True, text=True, timeout=600)
+    model = {}
+    for l in mo.stdout.split("\n"):
+        q = l.split("\t")
+        if len(q) == 3:
+            model[q[0]] = q[2]
+    distinct = set()
+    for cid, line, _ in model_lines:
+        io = impl[cid]
+        cls = io[1] if len(io) > 1 else "NONE"
+        kinds[cls] = kinds.get(cls, 0) + 1
+        if cls == "PANIC":
+            failures.append({"case": line, "kind": "creating a runner panicked", "impl": io, "model": [model.get(cid, "")], "concrete": True})
+        elif len(io) > 2 and io[2] != "STEPS ok":
+            failures.append({"case": line, "kind": "the loaded runner panicked within three Next calls", "impl": io, "model": [model.get(cid, "")], "concrete": True})
+        elif cls != model.get(cid):
+            failures.append({"case": line, "kind": f"load outcome {cls} differs from the load decision of the model ({model.get(cid)}) on the oracle values {io[0]}", "impl": io, "model": [model.get(cid, "")], "concrete": True})
+        else:
+            stats["agree"] += 1
+            distinct.add((io[0], cls))
+    stats["distinct_nontrivial"] = len(distinct)
+    stats["outcome_classes"] = kinds
+    return {"stats": stats, "failures": failures[:5], "samples": [pretty_load(l) for l in lines[:2]]}
+
+
+def pretty_load(line):
+    def dec(m):
+        try:
+            return repr(bytes(int(x) for x in m.group(1).split()))[:300]
+        except ValueError:
+            return m.group(0)
+    return re.sub(r"\(b((?: \d+)*)\)", dec, line)[:700]
+
+
 def runprop(profile, fields, elem_fields, quick, thorough, predicate=no_panic, nontrivial=None, extra_streams=(), **kw):
     d = {
         "level": "proof",
@@ -286,6 +404,15 @@ PROPERTIES = {
     "C03": runprop("vars", ("res", "v"), ("text",), 1500, 60000, nontrivial=lambda obs, case: sum(1 for o in obs if obs_kind(o) == "HSET") >= 1 and len({parse_run(o)["v"] for o in obs}) >= 3,
                    rule="run/vars: set/declare statements with every assignment operator over every pair of (current type or unset, assigned type), interleaved with host writes of same and other types; compared: result class and the complete variable contents after every operation; non-trivial = a host write and at least 3 distinct store contents",
                    leanchecker=["Ysgo.Props.C03"]),
+    "C05": {
+        "level": "proof",
+        "streams": [{"stream": "load", "profile": "mixed", "quick": 1500, "thorough": 60000, "special": special_load},
+                    {"stream": "load", "profile": "bytes", "quick": 500, "thorough": 40000, "special": special_load}],
+        "assumptions": ["the parser is an oracle of the model: its syntax-error count and node count are inputs of the load decision",
+                        "never-panics inside the ANTLR runtime, generated parser and tree builder is sampled, not proved"],
+        "rule": "load/mixed+bytes: valid generated scripts in random layouts, 1-3 byte/line/fragment-level mutations of them (delete, overwrite, swap, truncate, duplicate, unbalanced if, mixed tabs and spaces), fragment assemblies and raw bytes incl. NUL and invalid UTF-8; every case split across 0-3 readers (none, at node boundaries, anywhere, plus a valid second reader) with seed strings over valid and invalid alphabets, empty and wrapping int64; distinct by (oracle values, outcome)",
+        "leanchecker": ["Ysgo.Props.C05"],
+    },
     "C06": runprop("faults", (), (), 2000, 80000, nontrivial=lambda obs, case: sum(1 for o in obs if obs_kind(o) == "ERR") >= 2 and any(obs_kind(o) in ("L", "O") for o in obs),
                    rule="run/faults: valid scripts in which every expression position holds a faulty expression with probability 1/2 (ill-typed operations, unknown names, null, value-less functions, dice(0), inverted ranges, NaN/Inf arguments); compared: result class only; predicate: no panic; non-trivial = at least two errors and an element after which the runner was still usable",
                    leanchecker=["Ysgo.Props.C06"]),
@@ -309,6 +436,12 @@ PROPERTIES = {
                    nontrivial=lambda obs, case: sum(1 for o in obs if obs_kind(o) == "END") >= 2 and any(obs_kind(o) in ("L", "O") for o in obs),
                    rule="run/end: programs biased to reach an end (node end, <<stop>> at depth 0-3 with trailing statements, option group last) followed by further Next calls with arbitrary arguments; non-trivial = an element shown and at least two END results",
                    leanchecker=["Ysgo.Props.C12"]),
+    "C18": runprop("snap", ("res", "v", "vis"), ("text", "dis"), 600, 20000,
+                   nontrivial=lambda obs, case: sum(1 for o in obs if o.startswith("NEW")) >= 1,
+                   extra_streams=[{"stream": "run", "profile": "flow", "quick": 300, "thorough": 3000, "special": special_concurrent}],
+                   generated_facts=["Generated.PackageState (tools/pkgstate): no writable package-level state in the hand-written packages == Props/C18.no_mutable_package_state by decide"],
+                   rule="run/snap: several runners of one script created and stepped in deterministic sequential interleavings (logical sharing shows as divergence from the model); concurrent: the same flow cases run sequentially and, under the race detector, each in its own goroutine with 4-32 goroutines and GOMAXPROCS 1-16: every trace must equal the solo trace and the race detector must stay silent",
+                   leanchecker=["Ysgo.Props.C18"], trusted=["Go race detector (supporting evidence only)"]),
     "C19": runprop("numeric", ("res", "log"), ("text",), 1500, 60000, predicate=both(no_panic, numeric_contracts),
                    nontrivial=lambda obs, case: len(probe_values(obs)) >= 5,
                    extra_streams=[{"stream": "f64", "profile": "all", "quick": 20000, "thorough": 1000000, "nontrivial": lambda obs, case: True}],
